@@ -63,6 +63,7 @@ def run(ctx) -> None:
     ctx.section("setitem", _setitem, ctx)
     ctx.section("promote", _promote, ctx)
     ctx.section("validate_scalar", _validate_scalar, ctx)
+    ctx.section("kind_of_type", _kind_of_type, ctx)
     ctx.not_decided += [
         "elements produced by user callables (cast with an arbitrary callable, apply=) - there the site is ABSENT/INFER, "
         "i.e. truthful by construction",
@@ -495,7 +496,12 @@ def _cast_idiom2(ctx, s2):
     tpar = ("param", s2.top.params[1]) if len(s2.top.params) > 1 else None
     for dt, dconds in leaves_with_conds(s2.dtype):
         cd = const_dtype(dt)
-        if cd is None or cd[0] != tpar:
+        if cd is not None and cd[0] == tpar:
+            problems.append(f"an empty / all-None result is labelled with the raw requested class (`{show(dt, it)[:40]}`): for a subclass of a "
+                            f"builtin kind (IntEnum) Vector([None]).cast(Color) is <Color?>, a kind the library never gives to its instances - "
+                            f"v[0] = Color.RED is refused; expected kind_of_type(target)")
+        norm = cd is not None and cd[0] == ("call", ("name", "kind_of_type"), (tpar,), ())
+        if cd is None or not (cd[0] == tpar or norm):
             continue
         ok_empty = False
         for t, pol in _fc(tuple(dconds) + tuple(s2.ev.conds)):
@@ -511,6 +517,41 @@ def _cast_idiom2(ctx, s2):
     problems += _cast_kind_problems(s2, buf)
     return (not problems, "; ".join(problems) if problems else "cast idiom: DataType(target, nullable=has_none) with has_none set "
             "exactly where None is appended; every converted element is of the target kind; otherwise inferred from the buffer")
+
+
+def _kind_of_type(ctx) -> None:
+    """kind_of_type(cls) is the class-level mirror of infer_kind(value): the first builtin kind - in infer_kind's order (bool before
+    int, datetime before date) - that cls is a subclass of, else cls itself."""
+    from ..symx import Interp as _SI
+    from ..symx import show
+    prog = ctx.prog
+    f = prog.functions.get("typing.kind_of_type")
+    if f is None:
+        return
+    it = _SI(prog, f)
+    C = ("param", f.params[0])
+    probs = []
+    rets = [e for e in it.events if e.kind == "return" and e.depth == 0]
+    order = []
+    for e in rets:
+        if e.term == C:
+            continue
+        # unrolled loop over the module-level kinds table: return <kind_i> under issubclass(cls, <kind_i>) and not the earlier ones
+        pos = [t for t, pol in e.conds if pol]
+        if e.term[0] == "name" and pos and pos[-1] == ("call", ("name", "issubclass"), (C, e.term), ()):
+            order.append(e.term[1])
+        else:
+            probs.append(f"`return {show(e.term, it)[:40]}` is not `kind` under issubclass(cls, kind)")
+    if not any(e.term == C for e in rets):
+        probs.append("a class that is no subclass of a builtin kind is not returned as its own kind")
+    ik = prog.func("typing.infer_kind")
+    ii = _SI(prog, ik)
+    iorder = [e.term[1] for e in ii.events if e.kind == "return" and e.depth == 0 and e.term[0] == "name"]
+    if order != iorder:
+        probs.append(f"kinds are tried in the order {order}, infer_kind tests {iorder}: a subclass of bool / datetime would be given the "
+                     f"kind of its base's base (bool before int, datetime before date)")
+    ctx.ob("a.site-typing", f, "kind-of-type", not probs, f"kind_of_type mirrors infer_kind ({len(order)} builtin kinds, same order)", f.node,
+           message="kind_of_type: " + "; ".join(probs[:2]))
 
 
 # kinds whose instances satisfy isinstance(x, K): the kind itself and the kinds that are Python subclasses of it
@@ -1508,6 +1549,10 @@ def _validate_scalar(ctx) -> None:
 
 _V = "vector"
 MUTANTS = [
+    dict(id="cast-empty-labelled-with-raw-class", module=_V, old="			new_dtype = DataType(kind_of_type(py_target_type), nullable=has_none)",
+         new="			new_dtype = DataType(py_target_type, nullable=has_none)", rules=["a.site-typing"], desc="reverts fix 6cb0117"),
+    dict(id="kind-of-type-int-before-bool", module="typing", old="_BUILTIN_KINDS = (bool, int, float,", new="_BUILTIN_KINDS = (int, bool, float,",
+         rules=["a.site-typing"]),
     dict(id="bool-rung-missing", module=_V, old="		if target_kind is int:\n			return kind is bool\n		if target_kind is float:\n			return kind in (bool, int)",
          new="		if target_kind is float:\n			return kind is int", rules=["b.promote", "b.validation-loop"],
          desc="the defect repaired by fix 64d31b9: a bool vector rejects an int value instead of promoting"),
@@ -1516,12 +1561,9 @@ MUTANTS = [
     dict(id="rshift-labels-columns-with-own-dtype", module=_V, old="			return Vector((self,) + (other,))",
          new="			return Vector((self,) + (other,), dtype=self._dtype)", rules=["a.site-typing"],
          desc="the defect repaired by fix eaff0dd"),
-    dict(id="cast-date-passes-datetime", module=_V,
-         old="				if isinstance(x, datetime):\n					return x.date()  # a datetime is not of kind date: keep the date part\n", new="",
-         rules=["a.site-typing"], desc="the defect repaired by fix b11e7f6: a datetime vector cast to date keeps datetimes under <date>"),
-    dict(id="cast-int-passes-int-instances", module=_V, old="			caster = target_type  # either a type like str/int, or a callable",
-         new="			caster = (lambda x: x if isinstance(x, target_type) else target_type(x))",
-         rules=["a.site-typing"], desc="cast(int) would keep bools under <int>"),
+    # (two former mutants - cast(date) passing datetimes through, cast(int) passing int instances through - are no longer
+    # violations of C03: since fix f52cec5 the requested type labels only an empty / all-None result and every other result is
+    # typed by inference over the converted values, so an unconverted element is reported under its own kind)
     dict(id="elementwise-scalar-reuses-dtype", module=_V,
          old="			result_values = tuple(None if x is None else op_func(x, other) for x in self._underlying)\n			# Infer dtype from result (e.g., int * 0.1 = float)\n			result_dtype = infer_dtype(result_values)",
          new="			result_values = tuple(None if x is None else op_func(x, other) for x in self._underlying)\n			# Infer dtype from result (e.g., int * 0.1 = float)\n			result_dtype = self._dtype",
